@@ -85,7 +85,20 @@ def helpers_ok(snap):
     return bool(fl.Op.is_close(a, b)) == (abs(a - b) <= atol + rtol * abs(b))
 
 
-def exec_prog(prog, log):
+def precreate(prog, cms):
+    """`early` mode: every context manager of the program is CREATED before the program starts (in program order) and
+    only entered where its `with` statement stands - creating a context has no effect, the snapshot is taken on entry"""
+    while prog[0] not in ("done", "raise"):
+        if prog[0] == "ctx":
+            kwargs = {KEYS[k]: (None if v == "none" else pools()[KEYS[k]][v]) for k, v in prog[1]}
+            cms[id(prog)] = fl.settings.context(**kwargs)
+            precreate(prog[2], cms)
+            prog = prog[3]
+        else:
+            prog = prog[-1]
+
+
+def exec_prog(prog, log, cms=None):
     """prog: nested lists mirroring the Lean `Prog` syntax"""
     while True:
         op = prog[0]
@@ -103,21 +116,26 @@ def exec_prog(prog, log):
             prog = prog[3]
         elif op == "ctx":
             kwargs = {KEYS[k]: (None if v == "none" else pools()[KEYS[k]][v]) for k, v in prog[1]}
-            with fl.settings.context(**kwargs):
-                exec_prog(prog[2], log)
+            cm = cms[id(prog)] if cms is not None else fl.settings.context(**kwargs)
+            with cm:
+                exec_prog(prog[2], log, cms)
             prog = prog[3]
         else:
             raise ValueError(op)
 
 
-def run_impl(prog):
+def run_impl(prog, early=False):
     saved = dict(vars(fl.settings))
     try:
         for k in KEYS:
             setattr(fl.settings, ATTR[k], pools()[k][0])
         log, exc = [], 0
+        cms = None
+        if early:
+            cms = {}
+            precreate(prog, cms)
         try:
-            exec_prog(prog, log)
+            exec_prog(prog, log, cms)
         except Boom:
             exc = 1
         final = snapshot()
@@ -232,7 +250,7 @@ def key(case):
 
 def oracle(case):
     prog = case["prog"]
-    exc, final, log = run_impl(prog)
+    exc, final, log = run_impl(prog, early=bool(case.get("early")))
     e_exc, e_final, e_log = spec(prog)
     if exc != e_exc:
         return False, f"exception propagated: {exc}, expected {e_exc}"
@@ -276,12 +294,20 @@ def correspond(ctx):
         ok, detail = oracle(case) if kind == "enumerated" or st.evaluations % 5 == 0 else (True, "")
         if not ok:
             mism.append({"case": case, "violation": True, "detail": detail, "what": detail})
+        if f["ctx"] > 0 and (kind == "enumerated" or st.evaluations % 2 == 0):
+            # the same program with its context managers created before the program starts
+            st.count("early-created")
+            ok, detail = oracle({"prog": p, "early": True})
+            if not ok:
+                d = "context managers created before the program starts and entered later: " + detail
+                mism.append({"case": {"prog": p, "early": True}, "violation": True, "detail": d, "what": d})
     return mism
 
 
 def search(ctx):
     for p in itertools.chain(enum_progs(), (gen_prog(ctx.rng, 0, [ctx.rng.randint(3, 14)]) for _ in range(5000))):
-        ok, d = oracle({"prog": p})
-        if not ok:
-            return [({"prog": p}, d)]
+        for early in (False, True):
+            ok, d = oracle({"prog": p, "early": early})
+            if not ok:
+                return [({"prog": p, "early": early}, d)]
     return []
